@@ -110,18 +110,25 @@ Print Assumptions c19_stale_independence_program.
 (* c19_stale_independence_program compares two file systems with the same KIND of entry at
    every declared output, so it cannot compare a FIRST run (outputs absent) with a run AFTER AN
    EARLIER SUCCESS (outputs present) -- the one situation in which the real run_mapping
-   branches: `if not pth.exists(): open(pth,'w').write('junk'); pth.unlink()`.  This theorem
-   does, for probing programs (Model/FsModel.v): a core that does not see the answer of a Stat
-   on a set O' of declared outputs (it sees `OKind PExists` whatever is there), wrapped by
-   `wrapP O' cid core` so that a Stat the core flags is followed by the probe
-   `Create p true cid; Unlink p` exactly when it answered "absent".
+   branches (cli/from_specified_markers.py:122-139):
+     if not pth.exists(): [if pth.is_symlink(): ...] open(pth,'w').write('junk'); pth.unlink()
+   strace: `stat p = ENOENT; lstat p = ENOENT; open(p, O_CREAT|O_TRUNC); unlink p` where p is
+   absent, the single `stat p` where an earlier run left it.  This theorem does, for probing
+   programs (Model/FsModel.v): a core that does not see the answer of a Stat on a set O' of
+   declared outputs (it sees `OKind PExists` whatever is there), wrapped by
+   `wrapP O' cid k core` so that a Stat the core flags is followed, exactly when it answered
+   "absent", by k FURTHER Stats on the path and the probe `Create p true cid; Unlink p`.
+   The theorem is for EVERY k; k = 1 is the real run_mapping (the lstat of is_symlink; audit 4,
+   A3: with the class fixed to k = 0 the real program was outside it), k = 0 the code before the
+   symbolic-link fix.  c19_real_probe_is_instance: with k = 1 the wrapped program issues exactly
+   the strace'd sequence.
 
    f2 is the STALE file system: every path of O' is a file (an earlier run left it); f1 the
    FRESH one: every path of O' is absent.  Otherwise the hypotheses of
    c19_stale_independence_program: agreement on the inputs (and the writable query), in KIND
    on the declared paths and their ancestors OUTSIDE O', the run's scratch names new in both.
    If the run on the STALE file system is accepted then the run of the same program on the
-   FRESH one is accepted (within 3 * fuel operations: each Stat may grow into three), and
+   FRESH one is accepted (within (3 + k) * fuel operations: each Stat may grow into 3 + k), and
      - erase O' t1 = erase O' t2: the traces are equal once the Stat operations on O' (their
        answers differ) and the adjacent pairs `Create p _ _; Unlink p` on O' (the probes) are
        removed -- same operations, same order, same content ids written;
@@ -138,18 +145,18 @@ Print Assumptions c19_stale_independence_program.
    ex_existence_hypothesis_needed: it may then write anything), and `Stat` tells only the KIND:
    a real stat() of a stale output also returns st_size / st_mtime, which the model does not
    expose (the mapper does not use them today). *)
-Theorem c19_stale_independence_up_to_probes : forall c O' cid core fuel f1 f2 g2 t2 h2,
+Theorem c19_stale_independence_up_to_probes : forall c O' cid k core fuel f1 f2 g2 t2 h2,
   outside_scratch c = true -> mem (c_query c) (c_outputs c) = false ->
   incl O' (c_outputs c) ->
   (forall p, In p (c_inputs c) -> lookup f1 p = lookup f2 p) ->
   (c_obsm c = true -> lookup f1 (c_query c) = lookup f2 (c_query c)) ->
   (forall p, kregion c p = true -> ~ In p O' -> kind_of (lookup f1 p) = kind_of (lookup f2 p)) ->
   (forall p, In p O' -> lookup f1 p = None /\ kind_of (lookup f2 p) = PFile) ->
-  paccept c (wrapP O' cid core) fuel f2 g2 t2 h2 ->
+  paccept c (wrapP O' cid k core) fuel f2 g2 t2 h2 ->
   (forall p, in_cone c (fresh_names c t2) p = true -> lookup f1 p = None /\ lookup f2 p = None) ->
   exists fuel1 g1 t1 h1,
-    (fuel1 <= 3 * fuel)%nat /\
-    paccept c (wrapP O' cid core) fuel1 f1 g1 t1 h1 /\
+    (fuel1 <= (3 + k) * fuel)%nat /\
+    paccept c (wrapP O' cid k core) fuel1 f1 g1 t1 h1 /\
     erase O' t1 = erase O' t2 /\
     fresh_names c t1 = fresh_names c t2 /\
     (forall o, In o (c_outputs c) ->
@@ -158,6 +165,28 @@ Theorem c19_stale_independence_up_to_probes : forall c O' cid core fuel f1 f2 g2
        lookup g1 p = lookup f1 p /\ lookup g2 p = lookup f2 p).
 Proof. exact stale_independence_up_to_probes_thm. Qed.
 Print Assumptions c19_stale_independence_up_to_probes.
+
+(* The real probe is an instance of the class (k = 1).  Wherever the core flags a look at an
+   output p of O' (the erased history being eh), the wrapped program issues
+     where p is absent:  Stat p ; Stat p ; Create p true cid ; Unlink p     (x1 x2 x3: whatever
+                         the three further operations return)
+     where p is a file:  Stat p
+   and then, in both cases, what the core says at eh ++ [OKind PExists].  That is the sequence
+   strace shows for the real run_mapping on each of output_path and log_path:
+     first run   stat = ENOENT ; lstat = ENOENT ; openat(O_WRONLY|O_CREAT|O_TRUNC) ; unlink
+     second run  stat = file
+   (ex_real_probe_sequence: both paths, both runs).  For a general k: Proofs/FsProbeP.v
+   wrapP_probe_shape. *)
+Theorem c19_real_probe_is_instance : forall O' cid core h eh p r x1 x2 x3,
+  pstate O' cid 1 core h = (eh, []) -> core eh = (Stat p r, true) -> mem p O' = true ->
+  wrapP O' cid 1 core h = Stat p r /\
+  wrapP O' cid 1 core (h ++ [OKind PAbsent]) = Stat p PAbsent /\
+  wrapP O' cid 1 core (h ++ [OKind PAbsent; x1]) = Create p true cid /\
+  wrapP O' cid 1 core (h ++ [OKind PAbsent; x1; x2]) = Unlink p /\
+  wrapP O' cid 1 core (h ++ [OKind PAbsent; x1; x2; x3]) = fst (core (eh ++ [OKind PExists])) /\
+  wrapP O' cid 1 core (h ++ [OKind PFile]) = fst (core (eh ++ [OKind PExists])).
+Proof. exact real_probe_is_instance. Qed.
+Print Assumptions c19_real_probe_is_instance.
 
 (* The trace of an accepted program run is an accepted trace: c19_acceptor_sound,
    c19_preexisting_output_never_deleted and c19_concurrent_noninterference apply to it. *)
@@ -215,7 +244,8 @@ Definition ex_fs : fs :=
    ([1;1], (KFile, 1)); ([1;2], (KFile, 2)); ([1;3], (KFile, 3));
    ([3;9], (KDir, 0)); ([3;9;1], (KFile, 7)); ([2;1], (KFile, 8))].
 (* the shape of a successful run_mapping as strace shows it: is tmp/ a directory?,
-   cell_type_mapper_* (5), log.txt exists? no: probe of the log path, result_buffer_* (6),
+   cell_type_mapper_* (5), log.txt exists? no (stat, then the lstat of is_symlink: TWO looks):
+   probe of the log path (open with O_TRUNC, unlink), result_buffer_* (6),
    file_tracker_* copy of the query, results_buffer_* with one assignment file that is listed,
    stat'ed, read and removed, clean-up (with a look at a directory that is gone), outputs *)
 Definition ex_body : list op :=
@@ -226,7 +256,7 @@ Definition ex_body : list op :=
     Stat [3;5;1] PAbsent; Rmdir [3;6]; Rmdir [3;5]; Stat [2] PDir; Stat [2;1] PFile;
     Create [2;2] false 103; Create [2;1] true 104; Return true ].
 Definition ex_trace : list op :=
-  [ Stat [3] PDir; Mkdir [3;5]; Stat [2;2] PAbsent; Create [2;2] true 100; Unlink [2;2] ] ++ ex_body.
+  [ Stat [3] PDir; Mkdir [3;5]; Stat [2;2] PAbsent; Stat [2;2] PAbsent; Create [2;2] true 100; Unlink [2;2] ] ++ ex_body.
 
 Example ex_accepted : exists g, accept ex_cfg ex_fs ex_trace = Accepted g /\
   lookup g [2;1] = Some (KFile, 104) /\ lookup g [2;2] = Some (KFile, 103) /\
@@ -246,8 +276,8 @@ Example ex_stale : exists g, accept ex_cfg ex_fs' ex_trace = Accepted g /\
   lookup g [3;4] = Some (KFile, 11) /\ lookup g [2;5] = Some (KFile, 13).
 Proof. eexists. vm_compute. repeat split; reflexivity. Qed.
 
-(* a PROGRAM with the shape of run_mapping: it looks whether the log exists and probes the
-   path only when it does not; then the body above.  (The answer slot PExists of the Stat it
+(* a PROGRAM with the shape of run_mapping: it looks whether the log exists and, only when it
+   does not, looks again (is_symlink) and probes the path; then the body above.  (The answer slot PExists of the Stat it
    issues is irrelevant: it is filled in by the file system.) *)
 Definition ex_prog : program := fun h =>
   match h with
@@ -255,7 +285,7 @@ Definition ex_prog : program := fun h =>
   | [_] => Mkdir [3;5]
   | [_; _] => Stat [2;2] PExists
   | _ :: _ :: OKind PAbsent :: r =>
-      nth (length r) ([Create [2;2] true 100; Unlink [2;2]] ++ ex_body) (Return false)
+      nth (length r) ([Stat [2;2] PExists; Create [2;2] true 100; Unlink [2;2]] ++ ex_body) (Return false)
   | _ :: _ :: _ :: r => nth (length r) ex_body (Return false)
   end.
 
@@ -265,7 +295,7 @@ Example ex_program_hypotheses :
   outside_scratch ex_cfg = true /\ mem (c_query ex_cfg) (c_outputs ex_cfg) = false /\
   (forall p, In p (c_inputs ex_cfg) -> lookup ex_fs p = lookup ex_fs' p) /\
   (forall p, kregion ex_cfg p = true -> kind_of (lookup ex_fs p) = kind_of (lookup ex_fs' p)) /\
-  (exists g h, paccept ex_cfg ex_prog 40 ex_fs g ex_trace h /\ length h = 30%nat) /\
+  (exists g h, paccept ex_cfg ex_prog 40 ex_fs g ex_trace h /\ length h = 31%nat) /\
   (forall p, in_cone ex_cfg (fresh_names ex_cfg ex_trace) p = true ->
              lookup ex_fs p = None /\ lookup ex_fs' p = None) /\
   lookup ex_fs [2;1] <> lookup ex_fs' [2;1] /\ lookup ex_fs [3;9;1] <> lookup ex_fs' [3;9;1].
@@ -315,9 +345,12 @@ Proof.
 Qed.
 
 (* ---- probing programs: c19_stale_independence_up_to_probes ---- *)
-(* (i) run_mapping as a probing program.  The core: is tmp/ a directory?, cell_type_mapper_5,
-   a FLAGGED look at the log path [2;2], then the body -- in which the unflagged
-   `Stat [2;1] _` looks at the other output.  The core never sees what is at an output. *)
+(* (i) run_mapping as a probing program, k = 1 (the real shape after the symbolic-link fix:
+   two looks and the probe where the path is absent, one look where it exists).  The core: is
+   tmp/ a directory?, cell_type_mapper_5, a FLAGGED look at the log path [2;2], then the body --
+   in which the unflagged `Stat [2;1] _` looks at the other output.  The core never sees what is
+   at an output.  (The real run_mapping looks at output_path in the same way before log_path:
+   ex_real_probe_sequence has both.) *)
 Definition body_core (body : list op) : pcore := fun eh =>
   match eh with
   | [] => (Stat [3] PExists, false)
@@ -331,17 +364,51 @@ Definition ex_core : pcore := body_core ex_body.
    with the probe) and where an earlier run left it (ex_fs_log: no probe; refused with code
    11 when it appends to that log first -- finding F9b) *)
 Example ex_core_is_ex_prog :
-  (exists g h, paccept ex_cfg (wrapP [[2;2]] 100 ex_core) 40 ex_fs g ex_trace h) /\
-  prun ex_cfg (wrapP [[2;2]] 100 ex_core) 40 ex_fs bk0 [] = prun ex_cfg ex_prog 40 ex_fs bk0 [] /\
-  prun ex_cfg (wrapP [[2;2]] 100 ex_core) 40 ex_fs_log bk0 [] = Err 11 /\
+  (exists g h, paccept ex_cfg (wrapP [[2;2]] 100 1 ex_core) 40 ex_fs g ex_trace h) /\
+  prun ex_cfg (wrapP [[2;2]] 100 1 ex_core) 40 ex_fs bk0 [] = prun ex_cfg ex_prog 40 ex_fs bk0 [] /\
+  prun ex_cfg (wrapP [[2;2]] 100 1 ex_core) 40 ex_fs_log bk0 [] = Err 11 /\
   prun ex_cfg ex_prog 40 ex_fs_log bk0 [] = Err 11 /\
   (forall n, (n <= 25)%nat ->
-     prun ex_cfg (wrapP [[2;2]] 100 ex_core) n ex_fs_log bk0 [] = prun ex_cfg ex_prog n ex_fs_log bk0 []).
+     prun ex_cfg (wrapP [[2;2]] 100 1 ex_core) n ex_fs_log bk0 [] = prun ex_cfg ex_prog n ex_fs_log bk0 []).
 Proof.
   split; [do 2 eexists; eexists; vm_compute; split; reflexivity|].
   split; [vm_compute; reflexivity|]. split; [vm_compute; reflexivity|]. split; [vm_compute; reflexivity|].
   intros n Hn. do 26 (destruct n as [|n]; [vm_compute; reflexivity|]).
   exfalso. repeat (apply le_S_n in Hn). inversion Hn.
+Qed.
+
+(* the strace'd probe sequence of the real run_mapping, both paths (`for pth in (output_path,
+   log_path)`), as the run of a wrapped core with k = 1: the first run in an empty output
+   directory, and the second run in the same directory.  Recorded from /repo (first 9 / first 3
+   operations of the two runs):
+     first   mkdir tmp/cell_type_mapper_*; stat result.json ENOENT; lstat result.json ENOENT;
+             open(result.json, O_CREAT|O_TRUNC); unlink result.json; the same four on log.txt
+     second  mkdir tmp/cell_type_mapper_*; stat result.json (file); stat log.txt (file) *)
+Definition ex_core_probes : pcore := fun eh =>
+  match eh with
+  | [] => (Mkdir [3;5], false)
+  | [_] => (Stat [2;1] PExists, true)
+  | [_; _] => (Stat [2;2] PExists, true)
+  | [_; _; _] => (Rmdir [3;5], false)
+  | _ => (Return true, false)
+  end.
+Example ex_real_probe_sequence :
+  (exists g h, paccept ex_cfg (wrapP [[2;1]; [2;2]] 100 1 ex_core_probes) 12 (remove [2;1] ex_fs) g
+     [ Mkdir [3;5];
+       Stat [2;1] PAbsent; Stat [2;1] PAbsent; Create [2;1] true 100; Unlink [2;1];
+       Stat [2;2] PAbsent; Stat [2;2] PAbsent; Create [2;2] true 100; Unlink [2;2];
+       Rmdir [3;5]; Return true ] h) /\
+  (exists g h, paccept ex_cfg (wrapP [[2;1]; [2;2]] 100 1 ex_core_probes) 12 (([2;2], (KFile, 15)) :: ex_fs) g
+     [ Mkdir [3;5]; Stat [2;1] PFile; Stat [2;2] PFile; Rmdir [3;5]; Return true ] h) /\
+  (* with k = 0 (the class before audit 4) the first run is NOT this sequence *)
+  (exists g h, paccept ex_cfg (wrapP [[2;1]; [2;2]] 100 0 ex_core_probes) 12 (remove [2;1] ex_fs) g
+     [ Mkdir [3;5];
+       Stat [2;1] PAbsent; Create [2;1] true 100; Unlink [2;1];
+       Stat [2;2] PAbsent; Create [2;2] true 100; Unlink [2;2];
+       Rmdir [3;5]; Return true ] h).
+Proof.
+  split; [do 2 eexists; eexists; vm_compute; split; reflexivity|].
+  split; do 2 eexists; eexists; vm_compute; split; reflexivity.
 Qed.
 
 (* (ii) first run versus run after an earlier success.  Because the REAL body appends to the
@@ -359,7 +426,7 @@ Definition ex_stale_fs : fs := ([2;2], (KFile, 15)) :: ex_fs.
 Definition ex_trace_stale : list op :=
   [ Stat [3] PDir; Mkdir [3;5]; Stat [2;2] PFile ] ++ ex_body_t.
 Definition ex_trace_fresh : list op :=
-  [ Stat [3] PDir; Mkdir [3;5]; Stat [2;2] PAbsent; Create [2;2] true 100; Unlink [2;2] ]
+  [ Stat [3] PDir; Mkdir [3;5]; Stat [2;2] PAbsent; Stat [2;2] PAbsent; Create [2;2] true 100; Unlink [2;2] ]
   ++ firstn 21 ex_body ++ [Stat [2;1] PAbsent; Create [2;2] true 103; Create [2;1] true 104; Return true].
 
 (* all hypotheses of c19_stale_independence_up_to_probes hold ... *)
@@ -370,7 +437,7 @@ Example ex_probe_hypotheses :
   (forall p, kregion ex_cfg p = true -> ~ In p ex_O ->
              kind_of (lookup ex_fresh_fs p) = kind_of (lookup ex_stale_fs p)) /\
   (forall p, In p ex_O -> lookup ex_fresh_fs p = None /\ kind_of (lookup ex_stale_fs p) = PFile) /\
-  (exists g2 h2, paccept ex_cfg (wrapP ex_O 100 ex_core_t) 28 ex_stale_fs g2 ex_trace_stale h2) /\
+  (exists g2 h2, paccept ex_cfg (wrapP ex_O 100 1 ex_core_t) 28 ex_stale_fs g2 ex_trace_stale h2) /\
   (forall p, in_cone ex_cfg (fresh_names ex_cfg ex_trace_stale) p = true ->
              lookup ex_fresh_fs p = None /\ lookup ex_stale_fs p = None).
 Proof.
@@ -385,26 +452,26 @@ Qed.
 
 (* ... so the theorem applies (here with the hypotheses in exactly its form) ... *)
 Example ex_probe_theorem_applies : exists fuel1 g1 t1 h1,
-  (fuel1 <= 84)%nat /\ paccept ex_cfg (wrapP ex_O 100 ex_core_t) fuel1 ex_fresh_fs g1 t1 h1 /\
+  (fuel1 <= 112)%nat /\ paccept ex_cfg (wrapP ex_O 100 1 ex_core_t) fuel1 ex_fresh_fs g1 t1 h1 /\
   erase ex_O t1 = erase ex_O ex_trace_stale.
 Proof.
   destruct ex_probe_hypotheses as [H1 [H2 [H3 [H4 [H5 [H6 [[g2 [h2 H7]] H8]]]]]]].
-  destruct (c19_stale_independence_up_to_probes ex_cfg ex_O 100 ex_core_t 28 ex_fresh_fs ex_stale_fs g2
+  destruct (c19_stale_independence_up_to_probes ex_cfg ex_O 100 1 ex_core_t 28 ex_fresh_fs ex_stale_fs g2
               ex_trace_stale h2 H1 H2 H3 H4 (fun A => False_ind _ (Bool.diff_false_true A)) H5 H6 H7 H8)
     as [fuel1 [g1 [t1 [h1 [L [P [E _]]]]]]].
   exists fuel1, g1, t1, h1. split; [exact L|]. split; [exact P | exact E].
 Qed.
 
 (* ... and this is what it concludes: both runs are accepted; the fresh run probes the log path
-   and is told "absent" twice, the stale run is told "file" twice and does not probe: the raw
-   traces differ (30 and 28 operations), the erased traces are equal; both end with the same
+   (two looks: "absent", "absent"; creation; removal) and is told "absent" at the other output, the
+   stale run is told "file" twice and does not probe: the raw traces differ (31 and 28 operations), the erased traces are equal; both end with the same
    outputs -- indeed the same file system: the stale output [2;1] was overwritten, the stale
    scratch entries are untouched *)
 Example ex_probe_conclusion : exists g1 h1 g2 h2,
-  paccept ex_cfg (wrapP ex_O 100 ex_core_t) 30 ex_fresh_fs g1 ex_trace_fresh h1 /\
-  paccept ex_cfg (wrapP ex_O 100 ex_core_t) 28 ex_stale_fs g2 ex_trace_stale h2 /\
+  paccept ex_cfg (wrapP ex_O 100 1 ex_core_t) 31 ex_fresh_fs g1 ex_trace_fresh h1 /\
+  paccept ex_cfg (wrapP ex_O 100 1 ex_core_t) 28 ex_stale_fs g2 ex_trace_stale h2 /\
   ex_trace_fresh <> ex_trace_stale /\
-  (length ex_trace_fresh = 30 /\ length ex_trace_stale = 28)%nat /\
+  (length ex_trace_fresh = 31 /\ length ex_trace_stale = 28)%nat /\
   erase ex_O ex_trace_fresh = erase ex_O ex_trace_stale /\
   erase ex_O ex_trace_stale = [Stat [3] PDir; Mkdir [3;5]] ++ firstn 21 ex_body
                               ++ [Create [2;2] true 103; Create [2;1] true 104; Return true] /\
@@ -431,9 +498,9 @@ Definition ex_core_append : pcore := fun eh =>
   | _ => (Return true, false)
   end.
 Example ex_probe_direction_append :
-  (exists g h, paccept ex_cfg (wrapP [[2;2]] 100 ex_core_append) 10 ex_fs g
-     [Stat [2;2] PAbsent; Create [2;2] true 100; Unlink [2;2]; Create [2;2] false 103; Return true] h) /\
-  prun ex_cfg (wrapP [[2;2]] 100 ex_core_append) 10 ex_fs_log bk0 [] = Err 11 /\
+  (exists g h, paccept ex_cfg (wrapP [[2;2]] 100 1 ex_core_append) 10 ex_fs g
+     [Stat [2;2] PAbsent; Stat [2;2] PAbsent; Create [2;2] true 100; Unlink [2;2]; Create [2;2] false 103; Return true] h) /\
+  prun ex_cfg (wrapP [[2;2]] 100 1 ex_core_append) 10 ex_fs_log bk0 [] = Err 11 /\
   (forall p, In p [[2;2]] -> lookup ex_fs p = None /\ kind_of (lookup ex_fs_log p) = PFile) /\
   (forall p, p <> [2;2] -> lookup ex_fs p = lookup ex_fs_log p).
 Proof.
@@ -454,9 +521,9 @@ Definition ex_core_unlink : pcore := fun eh =>
   | _ => (Return true, false)
   end.
 Example ex_probe_direction_unlink :
-  (exists g h, paccept ex_cfg (wrapP [[2;1]] 100 ex_core_unlink) 10 ex_fresh_fs g
+  (exists g h, paccept ex_cfg (wrapP [[2;1]] 100 1 ex_core_unlink) 10 ex_fresh_fs g
      [Create [2;1] true 104; Unlink [2;1]; Return true] h) /\
-  prun ex_cfg (wrapP [[2;1]] 100 ex_core_unlink) 10 ex_fs bk0 [] = Err 13 /\
+  prun ex_cfg (wrapP [[2;1]] 100 1 ex_core_unlink) 10 ex_fs bk0 [] = Err 13 /\
   (forall p, In p [[2;1]] -> lookup ex_fresh_fs p = None /\ kind_of (lookup ex_fs p) = PFile) /\
   (forall p, p <> [2;1] -> lookup ex_fresh_fs p = lookup ex_fs p).
 Proof.
@@ -472,7 +539,7 @@ Qed.
    are removed in the `finally` block, then the tmp directory; log and JSON are written *)
 Example ex_failed_run_accepted : exists g,
   accept ex_cfg ex_fs
-    [ Mkdir [3;5]; Stat [2;2] PAbsent; Create [2;2] true 100; Unlink [2;2]; Mkdir [3;6]; OpenR [1;1];
+    [ Mkdir [3;5]; Stat [2;2] PAbsent; Stat [2;2] PAbsent; Create [2;2] true 100; Unlink [2;2]; Mkdir [3;6]; OpenR [1;1];
       Mkdir [3;6;2]; Create [3;6;2;7] true 102;
       ListDir [3;6]; ListDir [3;6;2]; Unlink [3;6;2;7]; Rmdir [3;6;2]; Rmdir [3;6]; Stat [3;6] PAbsent;
       Rmdir [3;5]; Create [2;2] false 103; Create [2;1] true 104; Return false ] = Accepted g /\
@@ -567,9 +634,10 @@ Proof. vm_compute. repeat split; try reflexivity; eexists; repeat split; reflexi
    In this model the environment can only write files (it cannot remove anything or make a
    directory: Model/Tracker.v `WriteTo`); under that alphabet no discipline of the environment is
    needed for the tracker's own guarantees.  What remains as hypothesis is collected in the boolean
-   `life_premise` (c19_tracker_premise), which the harness evaluates on the life RECORDED FROM A
-   REAL run_mapping on every run (harness/props/c19_tracker.py, class
-   tracker-premise-false-on-real-run).
+   `life_premise` / `life_premise_ow` (c19_tracker_premise, c19_tracker_premise_ow), which the
+   harness evaluates on the lives RECORDED FROM REAL run_mapping's on every run: a first run, a
+   SECOND run into the same output paths, and a run with obsm_key set
+   (harness/props/c19_tracker.py, class tracker-premise-false-on-real-run).
    (imported here: Model/Tracker.v reuses the names step / run / Create / del of FsModel)
    ==================================================================================== *)
 From CTM Require Import Model.Tracker Proofs.TrackerP.
@@ -680,7 +748,15 @@ Print Assumptions c19_tracker_copy_faithful.
    path: every call returns the same, the final file systems agree outside the stale part, and
    the stale part of each is exactly as it was (neither read — the outputs do not depend on it
    — nor changed).  The drawn names are the same in both runs (they are inputs; the tracker's
-   name is new in both). *)
+   name is new in both).
+   SCOPE (audit 4, A6).  For the real caller this theorem is EMPTY: run_mapping hands FileTracker
+   the directory cell_type_mapper_* it has just made with mkdtemp (cli/from_specified_markers.py),
+   so d is fresh, `entries f0 d = []`, nothing is stale, and the hypothesis forces f0 and f0' to
+   agree everywhere (ex_real_life: entries real_fs [3;5] = []).  What an earlier run left in the
+   user's scratch directory is the subject of the acceptor theorems above
+   (the c19_stale_independence theorems), not of this one.  This theorem is about LIBRARY USERS who construct
+   FileTracker(tmp_dir=...) on a directory they share between runs (tr_fs / tr_fs':
+   ex_tracker_stale_hypotheses). *)
 Theorem c19_tracker_independent_of_stale : forall d n0 f0 f0' mid,
   wf f0 -> wf f0' -> look f0 d = Dir -> look f0 (d ++ [n0]) = Absent -> look f0' (d ++ [n0]) = Absent ->
   forallb mid_op mid = true ->
@@ -706,16 +782,46 @@ Theorem c19_tracker_life_keeps_wf : forall f0 tmp n0 mid,
 Proof. exact tracker_life_keeps_wf. Qed.
 Print Assumptions c19_tracker_life_keeps_wf.
 
-(* The boolean `life_premise f0 d n0 mid` (Model/Tracker.v) yields every hypothesis used above
-   for a life with a tmp_dir: (1) for every file of f0, (3) third part, (5) with f0' := f0's
-   twin.  The harness evaluates it (tag 1954) on the life recorded from a real run_mapping. *)
+(* The boolean `life_premise_ow ow f0 d n0 mid` (Model/Tracker.v) yields every hypothesis used
+   above for a life with a tmp_dir: (1) for every path HANDED TO THE TRACKER (add_file) that is not
+   in `ow`, (3) third part, (5) with f0' := f0's twin.  `ow` lists the added paths the caller
+   overwrites by design: [] for a plain _run_mapping (life_premise), [query] when obsm_key is set
+   (append_to_obsm writes config['query_path'], the ORIGINAL path, not the tracker's copy).
+   The harness evaluates it (tag 1954) on the lives recorded from real run_mapping's.
+   Audit 4, A1: the clause about the environment used to be "no FILE OF f0 is written", which is
+   false on real lives these theorems quantify over - a second run with the same csv_result_path
+   rewrites the CSV the first left (a file of f0 that was never handed to the tracker), and with
+   obsm_key the query is written.  No theorem needs it: (1) and (4) ask "not written" of the one
+   path they speak about; the environment may rewrite any file it was not told to leave alone,
+   and (1) then says nothing about THAT file (c19_tracker_premise_inputs: everything else is
+   untouched). *)
+Theorem c19_tracker_premise_ow : forall ow f0 d n0 mid, life_premise_ow ow f0 d n0 mid = true ->
+  wf f0 /\ look f0 d = Dir /\ look f0 (d ++ [n0]) = Absent /\ forallb mid_op mid = true /\
+  (forall p, In p (added mid) -> ~ In p ow -> forallb (fun o => negb (writes_to p o)) mid = true) /\
+  (forall p, In p (requested mid) -> is_prefix (d ++ [n0]) p = false) /\
+  (forall o p, In o mid -> In p (op_paths o) -> stale_in d (entries f0 d) p = false).
+Proof. exact life_premise_ow_spec. Qed.
+Print Assumptions c19_tracker_premise_ow.
+
+(* ow = []: obsm_key unset (first run or a later run into the same output paths) *)
 Theorem c19_tracker_premise : forall f0 d n0 mid, life_premise f0 d n0 mid = true ->
   wf f0 /\ look f0 d = Dir /\ look f0 (d ++ [n0]) = Absent /\ forallb mid_op mid = true /\
-  (forall p c, look f0 p = File c -> forallb (fun o => negb (writes_to p o)) mid = true) /\
+  (forall p, In p (added mid) -> forallb (fun o => negb (writes_to p o)) mid = true) /\
   (forall p, In p (requested mid) -> is_prefix (d ++ [n0]) p = false) /\
   (forall o p, In o mid -> In p (op_paths o) -> stale_in d (entries f0 d) p = false).
 Proof. exact life_premise_spec. Qed.
 Print Assumptions c19_tracker_premise.
+
+(* the premise composed with (1): on a life that meets it, a file of f0 keeps its content while
+   the tracker lives and after del if it was handed to the tracker and is not overwritten by
+   design, or if the environment did not write that very path *)
+Theorem c19_tracker_premise_inputs : forall ow f0 d n0 mid, life_premise_ow ow f0 d n0 mid = true ->
+  forall p c, look f0 p = File c ->
+    (In p (added mid) /\ ~ In p ow) \/ ~ In p (written mid) ->
+    look (s_fs (alive f0 (Some d) n0 mid)) p = File c /\
+    look (s_fs (life f0 (Some d) n0 mid)) p = File c.
+Proof. exact life_premise_inputs_untouched. Qed.
+Print Assumptions c19_tracker_premise_inputs.
 
 (* ------------------------------------------------------------------ examples (tracker) *)
 (* names: 1 = in/, 2 = out/, 3 = tmp/; [1;1] query (11), [1;2] statistics (12); [2;1] the
@@ -758,7 +864,8 @@ Example ex_tracker_life :
   look g [3;5] = Absent /\ look g [3;5;52] = Absent /\ look g [3;9;1] = File 7.
 Proof. vm_compute. repeat split; reflexivity. Qed.
 
-(* THE LIFE OF THE REAL CALLER (cli/from_specified_markers.py:_run_mapping, obsm_key unset).
+(* THE LIFE OF THE REAL CALLER (cli/from_specified_markers.py:_run_mapping; first: obsm_key
+   unset and fresh output paths; the second run and the obsm run follow).
    run_mapping has made its own directory [3;5] (cell_type_mapper_NNN) and the result buffer
    [3;7] (result_buffer_NNN) in the scratch directory [3] before; [1;3] is the marker lookup.
      FileTracker(tmp_dir=[3;5])                      -> its directory [3;5;6] (file_tracker_NNN)
@@ -770,8 +877,19 @@ Proof. vm_compute. repeat split; reflexivity. Qed.
        environment has no mkdir), the CSV [2;3]
      the tracker dies when _run_mapping returns.
    The strict protocol `writes_ok` is FALSE on this life; every hypothesis of the theorems
-   (life_premise) holds: nothing requested, no input written, nothing stale named — the marker
-   cache is a fresh sibling, not an entry [3;5] had before.  After del the tracker's directory is
+   (life_premise) holds on it: nothing requested, no path handed to the tracker is written,
+   nothing stale named — the marker cache is a fresh sibling, not an entry [3;5] had before.
+   This is the FIRST run with obsm_key unset.  The premise does NOT say "no file of f0 is
+   written" (audit 4, A1: it did, and that is false for the two lives below):
+     ex_real_life_second_run  the same run again, into the same output paths: f0 already holds
+                              the CSV [2;3] the first run wrote, and it is rewritten while the
+                              tracker lives; life_premise holds (the CSV was never handed to the
+                              tracker), (1) is silent about [2;3] and speaks for every other file;
+     ex_real_life_obsm        obsm_key set: append_to_obsm writes the query [1;1] itself (the
+                              original path, not the tracker's copy [3;5;6;51], which only the
+                              readers of real_location see); life_premise (ow = []) is FALSE,
+                              life_premise_ow [[1;1]] holds; after del the query holds what was
+                              written and the other input is untouched.  After del the tracker's directory is
    gone, the inputs are as before, and what is new is exactly W (run_mapping removes [3;5] and
    [3;7] afterwards: Props above, the acceptor). *)
 Definition real_fs : fs :=
@@ -795,6 +913,54 @@ Example ex_real_life :
   look g [3;5;60] = File 100 /\ look g [3;7;70] = File 101 /\ look g [2;3] = File 102 /\
   look g [3;9;1] = File 7.
 Proof. vm_compute. repeat split; reflexivity. Qed.
+
+(* the second run: real_fs2 = what the first life left that matters (the CSV [2;3], content 23 to
+   tell it from the new 102) — the file system is well formed, the old clause of the premise
+   ("no file of f0 written") is false, the premise holds; the CSV is rewritten, every other file
+   of f0 is as before *)
+Definition real_fs2 : fs := real_fs ++ [([2;3], (KFile, 23))].
+Example ex_real_life_second_run :
+  wfb real_fs2 = true /\ look real_fs2 [2;3] = File 23 /\
+  forallb (fun q => negb (n_is_file (look real_fs2 q))) (written real_mid) = false /\
+  life_premise real_fs2 [3;5] 6 real_mid = true /\
+  added real_mid = [[1;1]; [1;2]] /\ written real_mid = [[3;5;60]; [3;7;70]; [2;3]] /\
+  snd (run (start real_fs2) (Tracker.Create (Some [3;5]) 6 :: real_mid ++ [Del])) =
+    [OOk; OOk; OOk; OLoc [3;5;6;51]; OLoc [3;5;6;52]; OOk; OOk; OOk; OOk] /\
+  let g := s_fs (life real_fs2 (Some [3;5]) 6 real_mid) in
+  look g [2;3] = File 102 /\ look g [3;5;6] = Absent /\
+  look g [1;1] = File 11 /\ look g [1;2] = File 12 /\ look g [1;3] = File 13 /\ look g [2;1] = File 21 /\
+  look g [3;9;1] = File 7.
+Proof. vm_compute. repeat split; reflexivity. Qed.
+
+(* obsm_key set: after the CSV the caller writes the query itself *)
+Definition real_mid_obsm : list op := real_mid ++ [WriteTo [1;1] 103].
+Example ex_real_life_obsm :
+  life_premise real_fs [3;5] 6 real_mid_obsm = false /\
+  life_premise_ow [[1;1]] real_fs [3;5] 6 real_mid_obsm = true /\
+  life_premise_ow [[1;1]] real_fs2 [3;5] 6 real_mid_obsm = true /\
+  snd (run (start real_fs) (Tracker.Create (Some [3;5]) 6 :: real_mid_obsm ++ [Del])) =
+    [OOk; OOk; OOk; OLoc [3;5;6;51]; OLoc [3;5;6;52]; OOk; OOk; OOk; OOk; OOk] /\
+  look (s_fs (alive real_fs (Some [3;5]) 6 real_mid_obsm)) [3;5;6;51] = File 11 /\
+  let g := s_fs (life real_fs (Some [3;5]) 6 real_mid_obsm) in
+  look g [1;1] = File 103 /\ look g [1;2] = File 12 /\ look g [1;3] = File 13 /\
+  look g [3;5;6] = Absent /\ look g [2;3] = File 102.
+Proof. vm_compute. repeat split; reflexivity. Qed.
+
+(* c19_tracker_premise_inputs on the obsm life: the statistics file [1;2] (handed to the tracker,
+   not overwritten by design) and the marker lookup [1;3] (not written) are untouched; the
+   theorem says nothing about the query [1;1] - which is indeed changed *)
+Example ex_real_life_obsm_inputs :
+  (forall p c, look real_fs p = File c -> p <> [1;1] -> ~ In p (written real_mid_obsm) ->
+     look (s_fs (life real_fs (Some [3;5]) 6 real_mid_obsm)) p = File c) /\
+  look (s_fs (life real_fs (Some [3;5]) 6 real_mid_obsm)) [1;2] = File 12.
+Proof.
+  assert (H : life_premise_ow [[1;1]] real_fs [3;5] 6 real_mid_obsm = true) by (vm_compute; reflexivity).
+  split.
+  - intros p c Hp _ Hw. exact (proj2 (c19_tracker_premise_inputs _ _ _ _ _ H p c Hp (or_intror Hw))).
+  - refine (proj2 (c19_tracker_premise_inputs _ _ _ _ _ H [1;2] 12 eq_refl (or_introl (conj _ _)))).
+    + vm_compute. auto.
+    + intros [E|[]]. discriminate E.
+Qed.
 
 (* (1) fails without a tmp_dir when the environment writes to the real_location of an
    input: the location IS the input — even under the strict protocol writes_ok *)
